@@ -26,7 +26,7 @@ type Case struct {
 	Forms  []string `json:"forms,omitempty"`  // per argument: var | lit | const (untyped constant / nil)
 	Spread bool     `json:"spread,omitempty"` // the last argument is a slice passed with `...`
 	ArgSrc string   `json:"argsrc,omitempty"` // "" | scriptcall | hostcall: all arguments come from one nested call
-	Ctx    string   `json:"ctx,omitempty"`    // define | assign | blank | return | retpos | nested | stmt | cond | expr | defer | go
+	Ctx    string   `json:"ctx,omitempty"`    // define | assign | assignmap | blank | return | retpos | retswap | nested | stmt | cond | expr | defer | go
 	Callee string   `json:"callee,omitempty"` // s2h: "" (hp.F(…)) | fnvar (`fv := hp.F; fv(…)`) | fntyped (`var fv func(…) … = hp.F; fv(…)`: the call goes through `call`)
 	Blank  []bool   `json:"blank,omitempty"`  // ctx blank: which results are assigned to _
 	Via    string   `json:"via,omitempty"`    // h2s: eval-qual | eval-plain | symbols
@@ -349,13 +349,18 @@ func (g *genCfg) genCtx(sig *TypeD) string {
 		opts = []string{"define", "define", "define", "assign", "assign", "blank", "blank", "return", "return", "nested", "nested", "stmt", "stmt",
 			"defer", "defer", "go"}
 	}
+	if n >= 2 {
+		opts = append(opts, "assignmap") // `m["k"], r1 = hp.F(…)`: a map entry among the destinations (F04-22, repaired by 7f288e3)
+	}
 	if n == 1 {
 		opts = append(opts, "retpos", "define")
 		if sig.Out[0].ID == "bool" {
 			opts = append(opts, "cond", "cond", "cond")
 		}
 		if sig.Out[0].ID == "int" || sig.Out[0].ID == "string" {
-			opts = append(opts, "expr", "expr")
+			// retswap: `func W(…) (a, b T) { a = K; return hp.F(…), a }` — another operand reads the result variable the call's
+			// position stands for (F04-23, repaired by 28d3d87)
+			opts = append(opts, "expr", "expr", "retswap", "retswap")
 		}
 	}
 	return opts[r.Intn(len(opts))]
@@ -770,7 +775,7 @@ var classes = []classT{
 
 // viaCall: the call is compiled by `call` (the callee expression has a script-written function type), not by callBin.
 func viaCall(c *Case) bool {
-	return c.Callee == "fntyped" || c.Callee == "fnvar" && (c.Ctx == "return" || c.Ctx == "retpos")
+	return c.Callee == "fntyped" || c.Callee == "fnvar" && (c.Ctx == "return" || c.Ctx == "retpos" || c.Ctx == "retswap")
 }
 
 func classOf(c *Case) string {
